@@ -44,7 +44,7 @@ def correspond(ctx):
         cv = [v.strip().lstrip('&') for v in m.group(1).split(',')]
         r['kwmap'] = dict(zip(r['kwlist'], [v[:-1] if v.endswith('_') else v for v in cv]))
     rng = random.Random(ctx.seed * 7 + 17)
-    per = 30 if ctx.quick() else 1500
+    per = 80 if ctx.quick() else 1500
     # real-only / complex-only routines (the `switch (MAT_ID(..))` of the wrapper): probed on the implementation
     TCS = {}
     for name in SPEC:
@@ -124,8 +124,20 @@ def correspond(ctx):
                 ldA, oA, A = matbuf(dimA, dimA, tri=True); ldB, oB, B = matbuf(m, n)
                 mats = {'A': A, 'B': B}
                 kw = {'side': side, 'uplo': uplo, 'transA': trans, 'diag': diag, 'm': m, 'n': n, 'ldA': ldA, 'ldB': ldB, 'offsetA': oA, 'offsetB': oB, 'alpha': val(tc)}
+            # documented default of n (level 1): the implementation is called without n, the reference semantics with the documented value
+            # n = 1 + (len(x) - offsetx - 1) / |incx| (0 if len(x) < offsetx + 1), computed here and not taken from the generated prefix
+            omit_n = False
+            if name in ('swap', 'copy', 'axpy', 'dot', 'dotu', 'scal', 'nrm2', 'asum', 'iamax') and rng.random() < 0.4:
+                omit_n = True
+                incx = kw.get('incx', kw.get('inc')); offx = kw.get('offsetx', kw.get('offset'))
+                ndef = 1 + (len(mats['x']) - offx - 1) // abs(incx) if len(mats['x']) >= offx + 1 else 0
+                if 'y' in mats:
+                    # y gets the same default length (swap, dot, dotu refuse unequal default lengths with ValueError)
+                    Ly = kw['offsety'] + (ndef - 1) * abs(kw['incy']) + 1 + rng.randint(0, abs(kw['incy']) - 1) if ndef > 0 else rng.randint(0, kw['offsety'])
+                    mats['y'] = matrix([val(tc) for _ in range(Ly)], (Ly, 1), tc)
+                kw['n'] = ndef
             # sometimes corrupt one integer argument (exercises the reject path: arguments must stay untouched)
-            if rng.random() < 0.12:
+            if rng.random() < 0.12 and not omit_n:
                 ik = [q for q in kw if isinstance(kw[q], int) and not isinstance(kw[q], bool)]
                 if ik: kw[rng.choice(ik)] = rng.choice([-1, 0, 9, 17])
             # the protocol line: everything the generated prefix needs
@@ -143,7 +155,9 @@ def correspond(ctx):
             if 'beta' in kw: line += ' beta=' + ntok(kw['beta'])
             before = {q: list(M) for q, M in mats.items()}
             try:
-                res = getattr(blas, name)(**dict(kw, **mats))
+                callkw = dict(kw, **mats)
+                if omit_n and kw.get('n') == ndef: del callkw['n']
+                res = getattr(blas, name)(**callkw)
                 o = 'ok ' + ' '.join('%s=%s' % (q, btok(mats[q]) if q in mats else '-') for q in ('x', 'y', 'A', 'B', 'C'))
                 if name in ('dot', 'dotu', 'asum', 'iamax') and res is not None: o += ' val=' + ntok(res if not isinstance(res, int) else res)
                 if name == 'nrm2' and res is not None: o += ' val2~%r' % (res * res)
